@@ -135,29 +135,10 @@ struct HArray : public HashTable<Key_T, HAItem_T<Key_T, Value_T>> {
             return;
         }
 
-        const SizeT  n_size   = (Size() + src.Size());
-        const HItem *src_item = src.First();
-        const HItem *src_end  = src_item + src.Size();
-
-        if (n_size > Capacity()) {
-            resize(n_size);
-        }
-
-        while (src_item < src_end) {
-            if (src_item->Hash != 0) {
-                SizeT *index;
-                HItem *storage_item = find(index, src_item->Key.First(), src_item->Key.Length(), src_item->Hash);
-
-                if (storage_item == nullptr) {
-                    storage_item = insert(index, Key_T{src_item->Key}, src_item->Hash);
-                    Memory::Initialize(&(storage_item->Value));
-                }
-
-                storage_item->Value = src_item->Value;
-            }
-
-            ++src_item;
-        }
+        // 'src' may be stored inside this table (a member of the object that is merged into), where the resize
+        // relocates it and an overwritten member releases it: the copy is made first, then merged by move.
+        HArray tmp{src};
+        *this += Memory::Move(tmp);
     }
 
     Value_T &Get(const Char_T *key, const SizeT length) {
